@@ -219,6 +219,13 @@ def make_case(rng, ctx):
     ctx.count("rotated" if info["rotated"] else "axis-aligned")
     ctx.count("offset>0" if info["offset_diams"] > 0 else "offset=0")
     ctx.count("scale!=1" if info["scale"] != 1.0 else "scale=1")
+    if rng.random() < 0.2:
+        # far ends of the size range, by an exact power of two (the rational oracle stays exact): a measure that is
+        # right at unit size and wrong for tiny or huge solids (an absolute epsilon in a normalisation, say) shows here
+        k = int(rng.integers(15, 31)) * (1 if rng.random() < 0.5 else -1)
+        v = v * (2.0 ** k)
+        info = dict(info, pow2=k)
+        ctx.count("extreme-size:2^%s" % ("+" if k > 0 else "-"))
     return {"vertices": v.tolist(), "info": info, "perm": rng.permutation(len(v)).tolist()}
 
 
